@@ -19,6 +19,9 @@
     queue on behalf of operation [owner]; [VExec], [VSubscribe], [VStop] …: resolver / Stop()
     calls); [fin p ls] the final state.  Operation n is the one started by label number n.
 
+    Stage 3 (section J) joins the two: one interleaved system with the data of stage 1, proved to
+    be a restriction of stage 2 and to project, owner by owner, to stage 1's sequential trace.
+
     Stage 1 (sections A–H) is the sequential semantics of the dispatcher (both handleMessage
     functions and graphqlWSHandler); "sent" means handed to sendMessage.  Stage 2 (section I) is the
     interleaved semantics of read loop, write loop, subscription goroutines and closers with the
@@ -27,14 +30,15 @@
 
     Reading of two clauses.  "Nothing but a connection error precedes the ack": in
     graphql-transport-ws a ping must be answered at any time, so a pong may precede the ack as
-    well (A).  The periodic keep-alive of the write loop (first after 15 s) is not part of the
-    model; in graphql-ws it is started by the first ack since fix 01d68b8 (checks/C08.design.md).
+    well (A).  The periodic keep-alive of the write loop is the label [LTick] (one period elapsed and
+    the write loop took the tick): graphql-transport-ws writes a pong (its heartbeat; allowed at any
+    time), graphql-ws a ka, since fix c3ed4f8 only once the first ack has been queued.
 
     PARTIAL (stated, not proved): "no goroutine serving it remains" is proved for the actor model
     (I: every actor terminates); on the real runtime it is observed by the correspondence check
     (goroutine profile after every conversation), not proved. *)
 From Coq Require Import List NArith ZArith Bool String.
-From ApiFu Require Import Ws.WsTypes Ws.WsSpec Ws.WsModel Ws.WsProofs Ws.WsTheorems Ws.WsActors Ws.WsActorsProofs.
+From ApiFu Require Import Ws.WsTypes Ws.WsSpec Ws.WsModel Ws.WsProofs Ws.WsTheorems Ws.WsActors Ws.WsActorsProofs Ws.WsSys Ws.WsSysProofs.
 Import ListNotations.
 Open Scope list_scope.
 
@@ -104,11 +108,23 @@ Proof. exact ws_no_start_dropped. Qed.
 (** ** E. ping / pong (graphql-transport-ws) *)
 Theorem C08_ws_ping_pong : forall ls id pl,
   closed (fin PTws ls) = false ->
-  snd (step false false PTws (fin PTws ls) (LFrame (Msg TPing id pl))) = [VRecv (Msg TPing id pl); VSend SPong None].
+  snd (step false false false PTws (fin PTws ls) (LFrame (Msg TPing id pl))) = [VRecv (Msg TPing id pl); VSend SPong None].
 Proof. exact ws_ping_pong. Qed.
-(** over a whole run: one pong per ping, in order, none unsolicited; none at all in graphql-ws *)
+(** over a whole run: one pong per ping and one per keep-alive tick, in order, none else; none at all in graphql-ws *)
 Theorem C08_ws_pongs_match_pings : forall (p : proto) ls, chk_pongs p 0 (tr p ls) = true.
 Proof. exact ws_pongs_match_pings. Qed.
+
+(** the write loop's periodic keep-alive ([LTick] anywhere in a run): a pong in
+    graphql-transport-ws, a ka in graphql-ws exactly when an init has been accepted; with (A) — which
+    quantifies over runs with ticks anywhere — never before the first ack *)
+Theorem C08_ws_tick_keepalive : forall (p : proto) ls,
+  closed (fin p ls) = false ->
+  snd (step false false false p (fin p ls) LTick) =
+  VTick :: match p with
+           | PWs => if did_init (fin p ls) then [VSend SKa None] else []
+           | PTws => [VSend SPong None]
+           end.
+Proof. exact ws_tick_keepalive. Qed.
 
 (** ** F. Stop() exactly once *)
 Theorem C08_ws_stop_exactly_once : forall (p : proto) ls n,
@@ -131,11 +147,15 @@ Proof. exact ws_model_meets_spec. Qed.
 
 (** the repaired defects, kept as witnesses: the model of the code before the repair violates the Spec *)
 Theorem C08_ws_ping_refuted_before_fix :
-  exists ls, spec_verdict PTws (trace true false PTws ls) = Some "ping-pong"%string.
+  exists ls, spec_verdict PTws (trace true false false PTws ls) = Some "ping-pong"%string.
 Proof. exact ws_ping_refuted_before_fix. Qed.
 Theorem C08_ws_id_reuse_refuted_before_fix :
-  exists ls, spec_verdict PWs (trace false true PWs ls) = Some "stale-id-after-source-end"%string.
+  exists ls, spec_verdict PWs (trace false true false PWs ls) = Some "stale-id-after-source-end"%string.
 Proof. exact ws_id_reuse_refuted_before_fix. Qed.
+
+Theorem C08_ws_keepalive_refuted_before_fix :
+  exists ls, spec_verdict PWs (trace false false true PWs ls) = Some "ack-not-first"%string.
+Proof. exact ws_keepalive_refuted_before_fix. Qed.
 
 (** ** I. stage 2: shutdown always completes (queue capacity [cap] >= 1 as a parameter) *)
 (** From every reachable configuration that is on its way out (closing has begun, or the client
@@ -175,6 +195,56 @@ Theorem C08_ws_quiescent_refuted_before_fix_goroutine :
             (forall l, internal l = true -> astep 1 false c l = None) /\ all_gone c = false.
 Proof. exact quiescent_refuted_before_fix_goroutine. Qed.
 
+(** ** J. stage 3: the two models joined (Ws/WsSys.v) *)
+(** One transition system: the actors of stage 2 carrying the dispatcher and the table of sources of
+    stage 1.  The read loop takes real client frames ([YFrame f]): what [handleMessage] decides (and
+    its Stop() / go func() effects) happens when the frame is taken, the frames it sends become the
+    read loop's program and go through the bounded queue one blocking send at a time; a goroutine takes
+    an event ([YEmit]), sends the data frame later, notices the end of its source ([IGEnd]) or its
+    cancellation, sends its complete later; [y_hist] lists the labels in the order of these commit
+    points.  [y_rcalls] / [y_gcalls]: frames handed to sendMessage so far by the read loop / by each
+    goroutine.
+
+    (J1) Every run of the joined system is a run of stage 2 on its configuration: the joined system only
+    restricts stage 2 (to the programs handleMessage really runs) and adds bookkeeping. *)
+Theorem C08_sys_runs_are_stage2_runs : forall cap p ls y y',
+  yrun cap p y ls = Some y' -> arun cap true (y_c y) (erase_run cap p y ls) = Some (y_c y').
+Proof. exact yrun_erases. Qed.
+
+(** (J2) … and projects to the sequential trace of stage 1, owner by owner.  In every reachable state,
+    with ls the labels committed so far: the dispatcher is in stage 1's state [fin p ls]; goroutine i
+    serves the i-th source x of that state, the application's Stop() has been called on its stream
+    exactly as often as stage 1 says, and what it has handed to sendMessage plus what it still has in
+    hand (the data frame of an event taken, the complete it owes) is exactly [owned (s_op x) (tr p ls)];
+    for every owner without a source (None = connection-level frames; queries, mutations, failed
+    subscribes) what the read loop has handed to sendMessage plus its remaining program (plus what an
+    early return after a failed ack / ka send dropped — only once the write loop has exited) is
+    exactly what [tr p ls] attributes to that owner; HandleClose has run iff stage 1 is closed.
+    Hence every theorem of sections A-H about [tr p ls] and [fin p ls] speaks about the interleaved
+    system: per owner, the frames sent are a prefix of stage 1's, the remainder being in hand. *)
+Theorem C08_sys_refines : forall cap p y, yreach cap p y ->
+  y_s y = fin p (y_hist y) /\ reachable cap true (y_c y) /\ finished (y_c y) = closed (fin p (y_hist y)) /\
+  List.length (gs (y_c y)) = List.length (srcs (fin p (y_hist y))) /\
+  List.length (y_gcalls y) = List.length (srcs (fin p (y_hist y))) /\
+  (forall i g x cl, nth_error (gs (y_c y)) i = Some g -> nth_error (srcs (fin p (y_hist y))) i = Some x ->
+                    nth_error (y_gcalls y) i = Some cl ->
+     g_stops g = s_stops x /\ cl ++ gor_pending g x = owned (s_op x) (tr p (y_hist y))) /\
+  (forall ow, is_src_op (srcs (fin p (y_hist y))) ow = false ->
+     osends_to ow (y_rcalls y ++ y_rprog y ++ y_lost y) = sent_to ow (tr p (y_hist y))) /\
+  (y_lost y = [] \/ writer_done (y_c y) = true).
+Proof. exact sys_refines. Qed.
+
+(** (J3) the joined system can take every internal step stage 2 can (the bookkeeping never blocks), so
+    (I) carries over: from every reachable state on its way out every run of internal steps is
+    bounded and can only stop where every actor has terminated, HandleClose has run, the connection is
+    deregistered and every stream has been stopped exactly once *)
+Theorem C08_sys_quiescent : forall cap p, 1 <= cap -> forall y,
+  yreach cap p y -> ending (y_c y) = true ->
+  forall ls y', Forall (fun a => internal a = true) ls -> yrun cap p y (map YInt ls) = Some y' ->
+    List.length ls <= mu (y_c y) /\
+    ((forall a, internal a = true -> ystep cap p y' (YInt a) = None) -> all_gone (y_c y') = true /\ cleaned (y_c y')).
+Proof. exact sys_quiescent. Qed.
+
 Print Assumptions C08_ws_ack_first.
 Print Assumptions C08_ws_no_exec_before_init.
 Print Assumptions C08_ws_nothing_without_init.
@@ -186,14 +256,19 @@ Print Assumptions C08_ws_sub_complete_once_then_silent.
 Print Assumptions C08_ws_no_start_dropped.
 Print Assumptions C08_ws_ping_pong.
 Print Assumptions C08_ws_pongs_match_pings.
+Print Assumptions C08_ws_tick_keepalive.
 Print Assumptions C08_ws_stop_exactly_once.
 Print Assumptions C08_ws_stop_only_started.
 Print Assumptions C08_ws_deregistered.
 Print Assumptions C08_ws_model_meets_spec.
 Print Assumptions C08_ws_ping_refuted_before_fix.
 Print Assumptions C08_ws_id_reuse_refuted_before_fix.
+Print Assumptions C08_ws_keepalive_refuted_before_fix.
 Print Assumptions C08_ws_quiescent.
 Print Assumptions C08_ws_quiescent_run_exists.
 Print Assumptions C08_ws_actors_stop_at_most_once.
 Print Assumptions C08_ws_quiescent_refuted_before_fix_reader.
 Print Assumptions C08_ws_quiescent_refuted_before_fix_goroutine.
+Print Assumptions C08_sys_runs_are_stage2_runs.
+Print Assumptions C08_sys_refines.
+Print Assumptions C08_sys_quiescent.
